@@ -429,6 +429,20 @@ func (r *rctx) stmt(s *S) {
 			r.line("pm%d[%d] = 1", s.ID, s.ID)
 		case "div":
 			r.line("tr.U(%d / tr.Zero())", s.ID)
+		case "blank-index":
+			// panicking expressions without any call, assigned to the blank identifier
+			r.line("tr.E(%d)", s.ID*10+1)
+			r.line("bx%d := []int{1, 2}", s.ID)
+			r.line("_ = bx%d[a%%7+2]", s.ID)
+		case "blank-deref":
+			r.line("var bp%d *int", s.ID)
+			r.line("_ = *bp%d", s.ID)
+		case "blank-assert":
+			r.line("var bv%d any = a", s.ID)
+			r.line("_ = bv%d.(string)", s.ID)
+		case "blank-div":
+			r.line("bz%d := a - a", s.ID)
+			r.line("_ = %d / bz%d", s.ID, s.ID)
 		case "error":
 			r.line("panic(tr.V(%d, fmt.Errorf(\"err%d\")))", s.ID, s.ID)
 		case "nil":
@@ -934,7 +948,7 @@ func (g *rgen) list(depth int, c wctx, max int) []*S {
 func (g *rgen) stmt(depth int, c wctx) *S {
 	g.left--
 	if g.p.PanicPct > 0 && g.rng.Intn(100) < g.p.PanicPct {
-		s := &S{K: "panic", Form: g.pick([]string{"explicit", "explicit", "index", "nilmap", "div", "error", "nil", "nilerr"}), N: 1}
+		s := &S{K: "panic", Form: g.pick([]string{"explicit", "explicit", "index", "nilmap", "div", "error", "nil", "nilerr", "blank-index", "blank-deref", "blank-assert", "blank-div"}), N: 1}
 		if g.rng.Intn(5) == 0 {
 			s.N = 0
 		}
